@@ -38,6 +38,8 @@ inductive Ev where
   | gcList (living : List Path)       -- GC: living set computed; everything else is doomed
   | gcRelease
   | gcDelete (p : Path)
+  | mLock (r : Rid)                   -- reader: `reload()` takes the reader's `reload_lock`
+  | mUnlock (r : Rid)                 -- reader: … and drops the guard when it returns
 deriving DecidableEq, Repr
 
 inductive Holder where
@@ -85,6 +87,8 @@ structure St where
   pubs : List (Rid × Nat) := []
   /-- `openFile` calls that hit a missing path -/
   badOpens : List (Rid × Path) := []
+  /-- holder of each reader's `reload_lock` -/
+  mutex : Nat → Option Rid := fun _ => none
 
 def init : St := {}
 
@@ -127,6 +131,8 @@ def step (s : St) : Ev → St
   | .gcRelease => { s with lock := if s.lock = some .gc then none else s.lock }
   | .gcDelete p =>
     { s with fs := s.fs.filter (fun q => q.1 != p), deleted := p :: s.deleted }
+  | .mLock r => { s with mutex := fun x => if x = r.1 then some r else s.mutex x }
+  | .mUnlock r => { s with mutex := fun x => if x = r.1 then none else s.mutex x }
 
 def run (s : St) (t : List Ev) : St := t.foldl step s
 
@@ -177,6 +183,8 @@ def ok (d : Disc) (s : St) : Ev → Bool
     (metaFiles s (s.metas.length - 1)).all (fun p => living.contains p)
   | .gcRelease => s.lock = some .gc
   | .gcDelete p => s.gcDels.contains p
+  | .mLock _ => true
+  | .mUnlock _ => true
 
 /-- run a per-step predicate along a trace -/
 def check (f : St → Ev → Bool) : St → List Ev → Bool
@@ -201,6 +209,19 @@ def seqOk (ρ : Nat) (s : St) : Ev → Bool
   | _ => true
 
 def sequential (ρ : Nat) (t : List Ev) : Bool := check (seqOk ρ) init t
+
+/-- The reload mutex of reader `ρ`, as the source uses it: `reload()` binds the guard first
+(`mLock`, possible only while nobody holds the mutex), loads and publishes while holding it, and
+drops it when it returns after the store (`mUnlock`). (I/O faults are not part of this model: a
+reload that has started runs to its publication, cf. `C05_reload_can_always_complete`.)
+-- mirrors: src/reader/mod.rs::reload (`let _reload_guard = self.reload_lock.lock()` … `store`) -/
+def mutexOk (ρ : Nat) (s : St) : Ev → Bool
+  | .mLock r => r.1 != ρ || (s.mutex ρ = none && (s.rs r).phase = .idle)
+  | .acquire r => r.1 != ρ || s.mutex ρ = some r
+  | .mUnlock r => r.1 != ρ || (s.mutex ρ = some r && (s.rs r).phase = .published)
+  | _ => true
+
+def mutexDisciplined (ρ : Nat) (t : List Ev) : Bool := check (mutexOk ρ) init t
 
 /-- reader `ρ` publishes only searchers on which its warmers have run
 -- mirrors: src/reader/mod.rs::create_searcher (`warm_new_searcher_generation(..)?` before `Ok(searcher)`)
